@@ -667,6 +667,11 @@ func c16Random(c *Ctx, n int) {
 			}
 		}
 		perms := c16Perms(kind, domains, []string{"data1", "data2"}, []string{"read", "write"})
+		if k%5 == 4 {
+			// field values containing the separators listings might be joined with: two distinct
+			// permissions whose joined texts coincide ("docs" + "public, read" / "docs, public" + "read")
+			perms = c16Perms(kind, domains, []string{"docs", "docs, public"}, []string{"read", "public, read"})
+		}
 		nr := c.Rng.Intn(6)
 		var policy [][]string
 		pk := map[string]bool{}
@@ -679,6 +684,75 @@ func c16Random(c *Ctx, n int) {
 		}
 		cs := &c16Case{kind: kind, links: links, policy: policy, names: names, domains: domains, perms: perms}
 		c16Run(c, fmt.Sprintf("c16.rnd.%d", k), "random-"+kind, cs)
+	}
+}
+
+// A second role definition that also relates SUBJECTS (the matcher accepts a role reached through
+// g or through g2).  Outside the Coq model (Rbac.v has one role definition): the property's own
+// predicates are evaluated on the implementation - the implicit users of a permission are exactly
+// the non-role subjects Enforce allows, where subjects and roles come from EVERY role definition;
+// every permission Enforce grants to a user is... (only the users-for-permission clause: implicit
+// roles / permissions are per-definition calls).
+const c16TwoDefText = `[request_definition]
+r = sub, obj, act
+[policy_definition]
+p = sub, obj, act
+[role_definition]
+g = _, _
+g2 = _, _
+[policy_effect]
+e = some(where (p.eft == allow))
+[matchers]
+m = (g(r.sub, p.sub) || g2(r.sub, p.sub)) && r.obj == p.obj && r.act == p.act
+`
+
+func c16TwoDefs(c *Ctx, n int) {
+	for k := 0; k < n; k++ {
+		mm, _ := model.NewModelFromString(c16TwoDefText)
+		e, _ := casbin.NewEnforcer(mm)
+		nn := 4 + c.Rng.Intn(5)
+		var names []string
+		for i := 0; i < nn; i++ {
+			names = append(names, c16Name(i))
+		}
+		var trace []string
+		isRole := map[string]bool{}
+		cand := map[string]bool{}
+		for _, gt := range []string{"g", "g2"} {
+			for i := c.Rng.Intn(nn); i > 0; i-- {
+				u, r := names[c.Rng.Intn(nn)], names[c.Rng.Intn(nn)]
+				if ok, _ := e.AddNamedGroupingPolicy(gt, u, r); ok {
+					trace = append(trace, fmt.Sprintf("%s(%s,%s)", gt, u, r))
+					isRole[r] = true
+					cand[u] = true
+				}
+			}
+		}
+		perms := [][]string{{"data1", "read"}, {"data2", "read"}}
+		for i := c.Rng.Intn(5); i > 0; i-- {
+			s, p := names[c.Rng.Intn(nn)], perms[c.Rng.Intn(len(perms))]
+			if ok, _ := e.AddPolicy(s, p[0], p[1]); ok {
+				trace = append(trace, fmt.Sprintf("p(%s,%s,%s)", s, p[0], p[1]))
+				cand[s] = true
+			}
+		}
+		id := fmt.Sprintf("c16.twodefs.%d", k)
+		for _, p := range perms {
+			got, err := e.GetImplicitUsersForPermission(p...)
+			var want []string
+			for _, s := range names {
+				if !cand[s] || isRole[s] {
+					continue
+				}
+				if ok, err := e.Enforce(s, p[0], p[1]); err == nil && ok {
+					want = append(want, s)
+				}
+			}
+			if err != nil || !c16Eq(sortedStrings(want), sortedStrings(got)) {
+				c.Direct(id, fmt.Sprintf("two role definitions: GetImplicitUsersForPermission(%v)=%v but non-role subjects with Enforce true=%v", p, got, want), strings.Join(trace, " "))
+			}
+		}
+		c.Count("two-role-definitions(implementation only)")
 	}
 }
 
@@ -739,6 +813,7 @@ func init() {
 				fmt.Sprintf("domains: all 256 graphs on 2 names x 2 domains x all policies of <=2 rules over 2 subjects x 2 domains x 2 objects (%d cases); all 4096 graphs on 3 names x 2 domains without self links x 1 random policy of <=2 rules each (%d cases)", b, d))
 			c16Chains(c)
 			c16Random(c, 1000)
+			c16TwoDefs(c, 400)
 			parts = append(parts, "chains and cycles of 9,10,11,12 edges (both families); 1000 seeded random graphs on 4..14 names with policies of <=5 rules")
 		} else {
 			a := c16Exhaustive(c, "p3", "plain", n3, []string{""}, true, objs, rw, 3, 0, false)
@@ -749,6 +824,7 @@ func init() {
 				fmt.Sprintf("domains: all 256 graphs on 2 names x 2 domains x all policies of <=3 rules over 16 rules (%d cases); all 4096 graphs on 3 names x 2 domains without self links x 8 random policies of <=3 rules (%d cases)", b, d))
 			c16Chains(c)
 			c16Random(c, 10000)
+			c16TwoDefs(c, 6000)
 			parts = append(parts, "chains and cycles of 9,10,11,12 edges (both families); 10000 seeded random graphs on 4..14 names with policies of <=5 rules")
 		}
 		c16Corner(c)
